@@ -39,20 +39,21 @@ func init() {
 			}
 			return []runner.Phase{
 				{Name: "iterations", Variant: "race", Cases: n, Run: c15case, CaseTimeout: 120 * time.Second,
-					Required: []string{"multi_page_iterations", "empty_pages", "fetch_errors", "manual_paging", "manual_paging_from_empty_state", "with_speculative_policy", "concurrent_manual_pagers", "manual_paging_without_page_size", "query_object_changed_while_iterating", "consumer_scan", "consumer_scanner", "consumer_mapscan", "consumer_slicemap", "prepared", "unprepared", "skipmeta"}},
+					Required: []string{"multi_page_iterations", "empty_pages", "fetch_errors", "manual_paging", "manual_paging_from_empty_state", "with_speculative_policy", "concurrent_manual_pagers", "manual_paging_without_page_size", "query_object_changed_while_iterating", "results_with_constant_paging_state", "consistency_via_SetConsistency", "consumer_scan", "consumer_scanner", "consumer_mapscan", "consumer_slicemap", "prepared", "unprepared", "skipmeta"}},
 			}
 		},
 	})
 }
 
 type c15set struct {
-	id       string
-	pages    [][]int32
-	errAt    int // page index whose fetch fails (-1 = none)
-	prepared bool
-	mu       sync.Mutex
-	requests []c15req
-	problems []string
+	id         string
+	pages      [][]int32
+	errAt      int // page index whose fetch fails (-1 = none)
+	prepared   bool
+	constState bool // the node hands out the same paging state with every page (an opaque cursor handle); it knows the position itself
+	mu         sync.Mutex
+	requests   []c15req
+	problems   []string
 }
 
 type c15req struct {
@@ -107,7 +108,14 @@ func (cn *c15node) handler(sc *fakenode.ServerConn, req *fakenode.Req) {
 	}
 	p := req.Params
 	page := 0
-	if p.HasPagingState {
+	if set.constState {
+		set.mu.Lock()
+		page = len(set.requests)
+		set.mu.Unlock()
+		if (page > 0) != p.HasPagingState || (p.HasPagingState && string(p.PagingState) != string(c15state(id, 0))) {
+			page = -1
+		}
+	} else if p.HasPagingState {
 		page = -1
 		for k := range set.pages {
 			if string(c15state(id, k)) == string(p.PagingState) {
@@ -141,6 +149,9 @@ func (cn *c15node) handler(sc *fakenode.ServerConn, req *fakenode.Req) {
 	if page < len(set.pages)-1 {
 		meta.MorePages = true
 		meta.PagingState = c15state(id, page+1)
+		if set.constState {
+			meta.PagingState = c15state(id, 0)
+		}
 	}
 	var rows [][][]byte
 	for _, rid := range set.pages[page] {
@@ -301,6 +312,11 @@ func c15case(c *runner.Ctx, i int) {
 			c.Add("empty_pages", int64(empties))
 		}
 		manual := r.Intn(7) == 0 && np > 1
+		if !manual && set.errAt < 0 && np > 2 && r.Intn(5) == 0 {
+			// the paging state is opaque: this result's pages all carry the same bytes
+			set.constState = true
+			c.Add("results_with_constant_paging_state", 1)
+		}
 		consumer := []string{"scan", "scanner", "mapscan", "slicemap"}[r.Intn(4)]
 		prefetch := []float64{0, 0.25, 0.5, 1, -1, 2, 0.9}[r.Intn(7)]
 		pageSize := []int{0, 1, 7, 50, 1000}[r.Intn(5)]
@@ -315,7 +331,14 @@ func c15case(c *runner.Ctx, i int) {
 			q = sess.Query("LIST PAGED " + set.id)
 			c.Add("unprepared", 1)
 		}
-		q.Prefetch(prefetch).Consistency(cons)
+		if r.Intn(3) == 0 {
+			// the consistency is chosen with the setter that returns nothing (after an earlier, different choice)
+			q.Prefetch(prefetch).Consistency(gocql.One)
+			q.SetConsistency(cons)
+			c.Add("consistency_via_SetConsistency", 1)
+		} else {
+			q.Prefetch(prefetch).Consistency(cons)
+		}
 		wantPageSize := cfg.PageSize
 		if pageSize > 0 {
 			q.PageSize(pageSize)
